@@ -34,6 +34,15 @@ CHECKS = {
     'C20': ('explicit-state enumeration of the structure space x constraint lists; for each state every permutation of children/relations/constraints (independent rebuild) and every single-point edit, checked against the eq/hash contract',
             'Every model up to the bound is compared with every order-permuted independent rebuild (must be equal, hashes equal, usable in sets) and with every single edit (must be unequal); element-level contracts for Feature, Relation, Constraint.',
             'Permutation products above 720 fall back to all adjacent transpositions plus the full reversal (reported in the evidence).', '3 C20'),
+    'C05': ('explicit-state enumeration of the JSON fragment of the structure space, deviation-bounded decorations (names, abstract, attribute values) and constraint trees; write/read/write/read cycles on the real writer and reader compared with the shadow',
+            'Every state up to the bound is written and read back; the read-back model is compared field by field (type-strict) with the source shadow, constraints by truth table, the second and third generations must be fix-points, parse_json must agree with the file reader.',
+            'Order-insensitive tree comparison; names by class representatives (not all of Unicode).', '3 C05'),
+    'C07': ('explicit-state enumeration of the FeatureIDE fragment, deviation-bounded names/abstract flags, constraint lists of length 0-2 (all trees of depth<=2 without XOR, incl. a single literal); write/read cycles on the real writer and reader',
+            'Every state up to the bound round-trips through FeatureIDEWriter/Reader; names, tree, abstract flags, one-to-one constraint equivalence and generation fix-points are checked; bytes returned == file.',
+            'Two known findings (TAB / newline in names are mangled by minidom).', '3 C07'),
+    'C08': ('explicit-state enumeration of the Glencoe fragment, deviation-bounded names, constraint trees of depth<=2 incl. XOR/EXCLUDES; write/read cycles on the real writer and reader',
+            'Every state up to the bound round-trips through GlencoeWriter/Reader; names, order-insensitive tree, constraint count, name-matched equivalence and generation fix-points are checked.',
+            'Order-insensitive comparison because the writer sorts by name.', '3 C08'),
 }
 
 REASON_TODO = 'check not built yet in this session; planned in DESIGN.md section 3 (model checking applies)'
